@@ -283,6 +283,26 @@ PROPS.update({
         "assumptions": ["a message is what serde_json::to_value shows of it (rules read public fields only)",
                         "sums of amounts are compared exactly in the model; the implementation's f64 comparison agrees away from the 0.01 boundary (boundary mutants are not generated)"],
     },
+    "C03": {
+        "streams": ["c03"],
+        "driver": False,
+        "extractors": ["T1", "T3", "T3s", "T9"],
+        "instances": n_layout_calls,
+        "rule": "for each of the 30 types, messages assembled from the independent layout specification (spec/layouts.txt) under structural plans: "
+                "minimal (mandatory items only), full (every optional item) once per option letter position, every optional item alone, every "
+                "repeating field / sequence at 1, 2 and the documented maximum (100 / 500 for the hard caps), plus random subsets from the shared "
+                "generator; contents are the library's canonical spellings (each pool content replaced by what the field's serialiser writes and kept "
+                "only if that is a field-level fixed point) of scenario draws and of contents generated from the documented field formats at "
+                "minimum / maximum / random component lengths. Oracle: accepted; to_mt_string() equal to the text byte for byte; the JSON model holds, "
+                "per sequence occurrence and tag (incl. option letter), exactly the component values the field's own parser gives for the written content, "
+                "in input order. Non-trivial = every case (all are valid messages); distinct = (type, plan, tag sequence)",
+        "modelled": "documented layout (T9) vs the parser call lists of parse_from_block4 (T1) and the option letters of the enum declarations (T3) with "
+                    "type aliases (T3s): reachability walk in Lean; acceptance, reproduction and component exposure are observed on the implementation",
+        "trusted_base": [KERNEL, TRANSLATOR, HARNESS,
+                         "spec/layouts.txt: independent layout specification (my reading of the SR2025 layouts as documented in each mt*.rs doc comment)",
+                         "the component expectation uses the library's own field parser on the single content (field-level correctness is C05/C02)"],
+        "assumptions": ["a call `covers` a letter iff the enum it parses has a variant with that letter (parse_with_variant dispatch is C14)"],
+    },
     "C08": {
         "streams": ["c08", "fields"],
         "stream_args": {"fields": ["--prop", "C08", "--modelled", "@modelled"]},
